@@ -48,9 +48,9 @@ EMPTY_FILE = {'cinfo': [], 'surfs': [], 'trs': [], 'vols': [], 'endg': True, 'nj
 def tlc_deck(deck):
     """The part of an abstract deck TraceDeck.tla reads."""
     keep_c = ('n', 'mat', 'rho', 'geom', 'imp', 'u', 'lat', 'fill', 'hasftr', 'ftr', 'hastrcl',
-              'trcl', 'lranges', 'lunivs', 'lsurfs', 'lvecs')
+              'trcl', 'lranges', 'lunivs', 'lsurfs', 'lvecs', 'latopt')
     keep_s = ('n', 'k', 'p', 'd', 'tr', 'bc', 'hlen', 'flen')
-    return {'cells': [{k: c[k] for k in keep_c} for c in deck['cells']],
+    return {'cells': [{k: (bool(c.get(k)) if k == 'latopt' else c[k]) for k in keep_c} for c in deck['cells']],
             'surfs': [{k: s[k] for k in keep_s} for s in deck['surfs']],
             'trs': [{'n': t['n'], 'o': t['o'], 'm': t['m']} for t in deck.get('trs', [])],
             'pts': deck['pts']}
